@@ -154,11 +154,11 @@ def disp(v):
     if isinstance(v, bool):
         return 'TRUE' if v else 'FALSE'
     if isinstance(v, float) and v == int(v):
-        return str(int(v))
+        return str(int(v))          # -0.0 shows as 0
     return str(v)
 
 
-NUMS = [0, 1, -1, 7, 2.5, -0.5, 3.0, 1e+20, sh.EMPTY]
+NUMS = [0, 1, -1, 7, 2.5, -0.5, 3.0, 1e+20, sh.EMPTY, -0.0, 0.1 + 0.2, 1e-7]
 
 
 def concat_ok(x: Union[bool, str], n0: bool, n1: bool, n2: bool, n3: bool, left: bool) -> bool:
